@@ -24,8 +24,8 @@ claims = {
    text="Leaf Normalize contracts (Point, Between, Ranged incl. the origin-spanning split with partial flags on the outer ends and the full-length case, Ambiguous when not crossing the origin), proved for all L >= 1 and all coordinates.",
    note=TB+" Join's two-range case is assumed; Rotate itself and composite Normalize are not yet under contract.", design='4/C04'),
  'C08': dict(
-   text="Modifier.Apply for all five forms proved exactly on both strands (incl. mirroring law and termination of the sign-flip recursion); Segment Len/Head/Tail/Complement, Abs, Compare, Unpack, Max.",
-   note=TB+" Regions.Resize and the locator constructors are not yet under contract; modifier text round trip not decided.", design='4/C08'),
+   text="Modifier.Apply for all five forms proved exactly on both strands (incl. mirroring law and termination of the sign-flip recursion); Segment.Resize exact; Regions.Resize on regions of segments proved with a ghost prefix-sum function: each offset lands in the segment L with pre(L) < v <= pre(L+1) (first/last segment when outside), the end pieces are the exact partial segments and the pieces between are kept whole, for every number of segments and every modifier form (this exposed and repaired the >= 3 segment defect); Segment Len/Head/Tail/Complement, Abs, Compare, Unpack, Max.",
+   note=TB+" Regions containing nested Regions are outside the contract; the locator constructors and the modifier text round trip are not decided; the step from the exact piece structure to 'equals the slice of the spliced sequence' is the denotational reading stated in DESIGN.md, not a separate obligation.", design='4/C08'),
  'C02': dict(
    text="Exact pointwise contracts for Shift/Expand (n >= 0) of Between, Point, Ranged, Ambiguous: covered set is the image under the insertion map, a spanning range splits into exactly two parts with partial flags on the outer ends (Shift) or extends over the guest (Expand); all i, n, coordinates.",
    note=TB+" Join/Order two-part cases assumed; composite locations and the sequence-level Insert/Embed not yet under contract.", design='4/C02'),
@@ -44,11 +44,16 @@ claims.update({
    text="Frame obligations ('assigns nothing': every byte/feature/location cell allocated before the call reads the same afterwards, including spare capacity) proved for Insert, Embed, Delete, Erase, Rotate, Reverse, Complement, Transcribe, Concat, WithInfo/WithFeatures/WithBytes/WithTopology, FeatureSlice.Insert/Filter, Props.Clone, replaceBytes, insert, NewOrigin and the leaf location methods, with arguments allowed to share backing arrays and to have cap > len; Slice is proved to write only location part lists; Origin.Bytes writes only its own fields. Five aliasing defects were found and repaired (insert, FeatureSlice.Insert, Delete, Rotate, Concat).",
    note=TB+" Sequence implementations are seen through assumed pure accessors (Info/Features/Bytes); asComplete and the composite Location methods are assumed to write only fresh part lists; Repair not covered.", design='4/C11'),
  'C18': dict(
-   text="Complement and Transcribe proved against an independent IUPAC base-set specification for every byte value (symbolic byte, tables read from the real string literals), same case, non-alphabet bytes unchanged, Complement never produces U and Transcribe writes U for A; replaceBytes exact. BySegment order lemmas.",
-   note=TB+" bytes.IndexByte is an assumed external contract. Match and Search (regexp / suffix array) are not under contract.", design='4/C18'),
+   text="Match: per-letter class obligations and literal quoting; Search: sound, complete, ascending. Complement and Transcribe proved against an independent IUPAC base-set specification for every byte value (symbolic byte, tables read from the real string literals), same case, non-alphabet bytes unchanged, Complement never produces U and Transcribe writes U for A; replaceBytes exact. BySegment order lemmas.",
+   note=TB+" bytes.IndexByte, bytes.ToLower, sort.Sort, the suffix-array lookup (bytesIndexAll) and the regexp engine are assumed external contracts; Match is decided at the level of the class emitted per query letter (obligation at each WriteString call site: the class is exactly the letters whose base set is contained in the query's) and of quoting non-alphabet bytes, Search as exactly the case-insensitive occurrence set in ascending order (ghost completeness witness). The k row of Match is a recorded known finding.", design='4/C18'),
  'C19': dict(
    text="FeatureSlice.Filter returns exactly the accepted features, in order, unaltered (ghost index maps: sound, ordered, complete); FeatureSlice.Insert returns the input plus the new feature at one position, sources first, locally ordered w.r.t. the location order (from sort.Search's unconditional guarantee); rangeCompare/rangeWithin/rangeOverlap exact.",
-   note=TB+" Filters are modelled as pure functions; LocationLess is assumed pure/deterministic; selector parsing and the filter constructors are not yet under contract.", design='4/C19'),
+   note=TB+" Filters are modelled as pure functions; LocationLess/LocationWithin/LocationOverlap are assumed pure and deterministic (recursive); regexp matching is an uninterpreted relation; selector string parsing is covered for index safety and termination only. The closures returned by And, Or, Not, Key, Within, Overlap and the three Qualifier forms are proved against the documented semantics (this exposed and repaired the unnamed-clause defect).", design='4/C19'),
+})
+claims.update({
+ 'C13': dict(
+   text="Header.Validate is proved to return nil exactly when all three digests equal the expected ones (all lengths, all contents); ReadHeader to return three adjacent size-byte fields of one fresh buffer only after a full read; Open to return without error only if the stored header carries the caller's root and data sums and the digest taken after Reset + exactly one copy of the file remainder, with the reader repositioned just behind the header and the Validate error never swallowed; Close to write the header at offset 0 only after the body digest was taken from a freshly reset hash fed by one copy. Universally quantified over file contents (the reader, hash and file are external and unconstrained).",
+   note=TB+" hash.Hash, io.Reader, os.File, io.Copy and flate are external: typestate ghosts (what was fed to the hash, last Seek offset) stand for them; collision-freedom of the digest, the flate round trip and durability/ordering of OS writes are assumptions, not obligations.", design='4/C13'),
 })
 not_app = {
  'C01': "string/grammar round trip through fmt, go-wrap and go-pars closures and global registries: no contract within reach expresses parse(print(x)) = x (DESIGN.md section 7)",
